@@ -1,2 +1,3 @@
 import Driver.Ver
 import Driver.Rx
+import Driver.Mk
